@@ -1,6 +1,7 @@
 /-
 Props/C01.lean — fields equal the magnetostatic integrals they claim to solve.
-Proved: Dipole kernel = point-dipole formula; the straight current segment: the port of
+Proved: Dipole kernel = point-dipole formula = minus the gradient of the scalar potential
+m·x/(4π|x|³) (three `HasDerivAt` computations); the straight current segment: the port of
 `current_polyline_Hfield` (normalisation, foot point, all three branches of the sinθ case split,
 direction) equals the Biot–Savart line integral over the segment for every observer off the
 carrier line (`segment_is_biot_savart`, via the antiderivative, the fundamental theorem of
@@ -17,6 +18,8 @@ import Mathlib.Analysis.SpecialFunctions.Integrals.Basic
 import Mathlib.Analysis.SpecialFunctions.Sqrt
 import MagpyVerif.Lemmas.KernReal
 import MagpyVerif.Lemmas.SegmentBS
+import Mathlib.Analysis.Calculus.Deriv.MeanValue
+import MagpyVerif.Lemmas.DipoleCalc
 namespace MagpyVerif.C01
 open MagpyVerif MagpyVerif.Kern Real intervalIntegral MagpyVerif.SegBS
 
@@ -105,4 +108,43 @@ theorem segment_is_biot_savart (cur : ℝ) (p1 p2 po : V3 ℝ)
 -- non-vacuity: segment along x, observer above its middle
 example : 0 < nsq (V3.cross ((⟨1, 0, 0⟩ : V3 ℝ) - ⟨0, 0, 0⟩) (⟨1/2, 1, 0⟩ - ⟨0, 0, 0⟩)) := by
   simp [nsq, V3.cross]
+/-- C01 (Dipole): `dipole_Hfield` is minus the gradient of the magnetic scalar potential of a point
+dipole, φ(x) = m·x / (4π|x|³) (`dipolePotential`): at every point (x,y,z) other than the dipole
+position the three partial derivatives of φ exist and equal −Hx, −Hy, −Hz of the model kernel.
+This is the defining relation H = −∇φ of the field the kernel claims to compute. -/
+theorem dipole_is_minus_grad (m : V3 ℝ) (x y z : ℝ) (hx : (⟨x, y, z⟩ : V3 ℝ) ≠ ⟨0, 0, 0⟩) :
+    HasDerivAt (fun t => dipolePotential m ⟨t, y, z⟩) (-(dipoleH m ⟨x, y, z⟩).x) x ∧
+    HasDerivAt (fun t => dipolePotential m ⟨x, t, z⟩) (-(dipoleH m ⟨x, y, z⟩).y) y ∧
+    HasDerivAt (fun t => dipolePotential m ⟨x, y, t⟩) (-(dipoleH m ⟨x, y, z⟩).z) z :=
+  dipolePotential_grad m ⟨x, y, z⟩ (norm_ne_zero_of_ne hx)
+
+/-- non-vacuity: moment (0,0,1), point (0,0,1): φ = 1/(4π) there and ∂φ/∂z = −Hz = −1/(2π) ≠ 0 -/
+example : HasDerivAt (fun t => dipolePotential ⟨0, 0, 1⟩ (⟨0, 0, t⟩ : V3 ℝ))
+    (-(dipoleH ⟨0, 0, 1⟩ (⟨0, 0, 1⟩ : V3 ℝ)).z) 1 := (dipole_is_minus_grad ⟨0, 0, 1⟩ 0 0 1 (by simp)).2.2
+example : dipolePotential ⟨0, 0, 1⟩ (⟨0, 0, 1⟩ : V3 ℝ) = 1 / (4 * Real.pi) := by
+  simp [dipolePotential, V3.dot, norm_axis_z 1 zero_le_one]
+
+/-- the antiderivative `g(t) = t / (d²·√(t²+d²))` of the straight-filament integrand is strictly
+increasing for d > 0 (its derivative `1/((t²+d²)√(t²+d²))` is positive).  Consequence for the
+code: for a segment whose end points have line coordinates a < b the quantity
+`sinθ₂ − sinθ₁ = d²·(g b − g a)` that `current_polyline_Hfield` calls `deltaSin` is positive, so
+the field of a non-degenerate segment never vanishes off its carrier line. -/
+theorem seg_antiderivative_strictMono (d : ℝ) (hd : 0 < d) :
+    StrictMono (fun t : ℝ => t / (d^2 * Real.sqrt (t^2 + d^2))) := by
+  apply strictMono_of_deriv_pos
+  intro t
+  rw [(hasDerivAt_seg d hd t).deriv]
+  have hpos : 0 < t^2 + d^2 := by positivity
+  have hs : 0 < Real.sqrt (t^2 + d^2) := Real.sqrt_pos.mpr hpos
+  positivity
+
+/-- the definite Biot–Savart integral of a straight filament over a non-empty parameter range
+a < b is positive (the closed-form difference of `integral_seg` cannot cancel) -/
+theorem integral_seg_pos (d a b : ℝ) (hd : 0 < d) (hab : a < b) :
+    0 < ∫ t in a..b, 1 / ((t^2 + d^2) * Real.sqrt (t^2 + d^2)) := by
+  rw [integral_seg d a b hd]
+  exact sub_pos.mpr (seg_antiderivative_strictMono d hd hab)
+
+example : (0 : ℝ) / (1^2 * Real.sqrt (0^2 + 1^2)) < 1 / (1^2 * Real.sqrt (1^2 + 1^2)) :=
+  seg_antiderivative_strictMono 1 one_pos one_pos
 end MagpyVerif.C01
